@@ -27,6 +27,7 @@ static void fill(LeastSquares<S> & ls, int m, int n, const char ** jn, const cha
 template<typename S, bool SVD, bool WEIGHTED>
 static void solve_once()
 {
+  if (sizeof(S) == 4) vf_tol(1e-3);
   using LS = LeastSquares<S>;
   using VecX = Eigen::Matrix<S, Eigen::Dynamic, 1>;
   const int n = (int)vf_param("n"), m = (int)vf_param("m"), cap = (int)vf_param("cap");
@@ -84,6 +85,7 @@ extern "C" void c07_svd_f() { solve_once<float, true, false>(); }
 template<typename S>
 static void history()
 {
+  if (sizeof(S) == 4) vf_tol(1e-3);
   using LS = LeastSquares<S>;
   using VecX = Eigen::Matrix<S, Eigen::Dynamic, 1>;
   const int n = (int)vf_param("n"), m1 = (int)vf_param("m1"), m2 = (int)vf_param("m2");
